@@ -517,3 +517,58 @@ pub unsafe extern "C" fn getrandom(buf: *mut c_void, n: size_t, _flags: c_uint) 
     }
     n as ssize_t
 }
+
+// ---------------------------------------------------------------------------------------
+// Thread creation seam: a thread created by a scheduler-controlled thread is registered with
+// the scheduler at creation (program order => logical id) and parks before it executes its
+// first instruction of user code, whatever hooks the code under test has (or has lost). When
+// its start routine has returned (every value it owned is dropped) it leaves the schedule.
+
+type StartFn = extern "C" fn(*mut c_void) -> *mut c_void;
+type PthreadCreate =
+    unsafe extern "C" fn(*mut libc::pthread_t, *const libc::pthread_attr_t, StartFn, *mut c_void) -> c_int;
+
+struct Tramp {
+    start: StartFn,
+    arg: *mut c_void,
+    token: u64,
+}
+
+extern "C" fn trampoline(p: *mut c_void) -> *mut c_void {
+    let t = unsafe { Box::from_raw(p.cast::<Tramp>()) };
+    crate::sched::thread_enter(t.token);
+    let r = (t.start)(t.arg);
+    crate::sched::thread_exit();
+    r
+}
+
+static REAL_PTHREAD_CREATE: std::sync::atomic::AtomicUsize = std::sync::atomic::AtomicUsize::new(0);
+
+#[no_mangle]
+pub unsafe extern "C" fn pthread_create(
+    thread: *mut libc::pthread_t,
+    attr: *const libc::pthread_attr_t,
+    start: StartFn,
+    arg: *mut c_void,
+) -> c_int {
+    let mut real = REAL_PTHREAD_CREATE.load(Ordering::Relaxed);
+    if real == 0 {
+        real = libc::dlsym(libc::RTLD_NEXT, c"pthread_create".as_ptr()) as usize;
+        if real == 0 {
+            libc::abort();
+        }
+        REAL_PTHREAD_CREATE.store(real, Ordering::Relaxed);
+    }
+    let real: PthreadCreate = std::mem::transmute(real);
+    let token = crate::sched::token_for_new_thread();
+    if token == 0 {
+        return real(thread, attr, start, arg);
+    }
+    let b = Box::into_raw(Box::new(Tramp { start, arg, token }));
+    let rc = real(thread, attr, trampoline, b.cast());
+    if rc != 0 {
+        drop(Box::from_raw(b));
+        crate::sched::thread_never_started(token);
+    }
+    rc
+}
